@@ -200,6 +200,25 @@ def _worker(cases):
                 out.setdefault("intro/errors", ["introspection query reports errors", dict(wit, errors=[str(e) for e in res.errors][:3])])
                 continue
             compare(schema, report, res.data, incl, out, wit)
+        # the same schema with a schema-wide default resolver (schema.default_resolver = f, the documented way of serving ordinary
+        # fields): it is still a valid schema and introspection must report exactly the same
+        def everything_is_none(root, ctx, info, **kw):
+            return None
+        schema.default_resolver = everything_is_none
+        n += 1
+        wit = {"incl": incl, "cfg": "blocking-optimised + schema.default_resolver", "schema_edit": c.get("_label")}
+        sub = {}
+        try:
+            res = c10.run_config("blocking-optimised", schema, q)
+            if res.errors:
+                sub["intro/errors"] = ["introspection query reports errors", dict(wit, errors=[str(e) for e in res.errors][:3])]
+            else:
+                compare(schema, report, res.data, incl, sub, wit)
+        except Exception as e:
+            sub["intro/raises/%s" % type(e).__name__] = ["introspection raises", dict(wit, error=repr(e)[:300])]
+        for k, v in sub.items():
+            if k not in out:        # only what the default resolver changes
+                out.setdefault("intro/with-schema-default-resolver/" + k[len("intro/"):], v)
     return out, n
 
 
